@@ -39,7 +39,7 @@ class ModularMixin:
             # outcome
             conds, alts = [], []
             normal_cond = True
-            for rc in C.raises:
+            for rc in ([] if C.lazy else C.raises):
                 w = self.spec_bool(rc.when_ast) if rc.when_ast is not None else True
                 conds.append(w)
                 alts.append(rc)
